@@ -44,6 +44,9 @@ def cases(draw):
             im["drift"] = draw(st.integers(0, 10**6))  # slowly varying columns
         if draw(st.integers(0, 3)) == 0:
             im["cross_midnight"] = True
+        if draw(st.integers(0, 4)) == 0:
+            # line numbers are labels, not positions: they may start again or be unset (0)
+            im["line_numbers"] = draw(st.sampled_from(["restart", "zeros"]))
         images.append(im)
     return {
         "level": level,
